@@ -169,7 +169,7 @@ def run_pl(desc):
                 prev = s
             else:
                 prev = None
-                if R.nullable(s):
+                if R.seg_nullable(s):
                     out.either += 1
                     return
         follow = FC.follows_links(cfg)
